@@ -868,6 +868,7 @@ func c13Run(t *testing.T, ops []c13Op, emit bool) *c13Result {
 	roleCreated := map[int]int{}       // role -> operation that created (or re-created) it
 	cutOff := map[uint64]jump{}        // document -> the page end (revocation row printed without its trigger) that cut its row off
 	var heldAtCaughtUp map[int]bool    // the user's channels at the last request that caught up
+	var cachedAtCaughtUp uint64        // ... and the cached sequence of that request
 	explained := map[uint64]string{}   // document -> root cause already established for a mismatch that persists
 	sawRevoked, sawBackfill := false, false
 	for i, op := range ops {
@@ -1323,6 +1324,41 @@ func c13Run(t *testing.T, ops []c13Op, emit bool) *c13Result {
 							}
 						}
 					}
+					// a rebuild kept a grant but stamped it with a LATER sequence (its earliest source -- explicit grant or granting
+					// document -- went away while another source of the same channel for the same principal persisted):
+					// calculateHistory records nothing for a kept grant, so the period before the new stamp is in no history and
+					// CollectionChannelGrantedPeriods does not cover the client's position although the user held the channel then
+					if why == "" && heldAtCaughtUp != nil {
+						for _, sd := range snap.Docs {
+							if sd.ID != d {
+								continue
+							}
+							for _, de := range sd.Hist {
+								ci := int(de.Name) - 1
+								if ci < 0 || ci >= len(c13ChanNames) || why != "" {
+									continue
+								}
+								inThen := de.Start <= cachedAtCaughtUp && (de.End == 0 || de.End > cachedAtCaughtUp)
+								if !inThen || !heldAtCaughtUp[ci] || held[ci] {
+									continue
+								}
+								per, perr := usr.CollectionChannelGrantedPeriods(e.col.ScopeName, e.col.Name, c13ChanNames[ci])
+								if perr != nil {
+									continue
+								}
+								covered := false
+								for _, pp := range per {
+									if pp.StartSeq <= cachedAtCaughtUp && cachedAtCaughtUp < pp.EndSeq {
+										covered = true
+									}
+								}
+								if !covered {
+									why = "/restamped-grant-loses-period"
+									cause = fmt.Sprintf(" [the user held channel %s at the previous completed pull (cached sequence %d) and d%d was in it; the channel is lost now, but the periods CollectionChannelGrantedPeriods returns for it (%v) do not contain %d: a rebuild re-stamped the kept grant with a later sequence when its earliest source went away, and calculateHistory records nothing for a kept grant]", c13ChanNames[ci], cachedAtCaughtUp, d, c13SortPeriods(per), cachedAtCaughtUp)
+								}
+							}
+						}
+					}
 					if j, cut := cutOff[d]; cut {
 						why = "/revocation-token-skips-rows"
 						cause = fmt.Sprintf(" [the row of d%d was cut off by a page that ended with a revocation row %d:%d, whose token is printed as %d: the client resumed past it]", d, j.T, j.S, j.S)
@@ -1376,28 +1412,41 @@ func c13Run(t *testing.T, ops []c13Op, emit bool) *c13Result {
 		prevHeld = held
 		if caught {
 			heldAtCaughtUp = held
+			cachedAtCaughtUp = snap.Cached
 		}
 	}
 	res.nontri = sawRevoked || sawBackfill
-	// histories with admin grants only are also replayed on the whole-system model (Sys.v): operations in, snapshot
-	// and rows of every pull out
+	// every history is also replayed on the whole-system model (Sys.v, sync-function grants included): operations in,
+	// snapshot and rows of every pull out
 	if emit && len(res.fails) == 0 || emit && c13OnlyPropertyFailures(res.fails) {
-		adminOnly := true
+		docGrants := false
 		var sops []string
-		for _, op := range ops {
-			ids := func(v []int, off int) string {
-				out := make([]uint64, len(v))
-				for k, x := range v {
-					out[k] = uint64(x + off)
-				}
-				return cqNList(out)
+		ids := func(v []int, off int) string {
+			out := make([]uint64, len(v))
+			for k, x := range v {
+				out[k] = uint64(x + off)
 			}
+			return cqNList(out)
+		}
+		for _, op := range ops {
 			switch op.Kind {
 			case "put":
 				if len(op.Acc) > 0 || len(op.Rol) > 0 {
-					adminOnly = false
+					docGrants = true
 				}
-				sops = append(sops, fmt.Sprintf("SPut %d %s", op.Doc, ids(op.Chans, 1)))
+				var acc []string
+				for _, g := range op.Acc {
+					to := 0 // the user
+					if g.Role {
+						to = g.To
+					}
+					acc = append(acc, fmt.Sprintf("(%d, %s)", to, ids(g.V, 1)))
+				}
+				var rol []int
+				for _, g := range op.Rol {
+					rol = append(rol, g.V...)
+				}
+				sops = append(sops, fmt.Sprintf("SPut %d %s %s %s", op.Doc, ids(op.Chans, 1), cqList(acc), ids(rol, 0)))
 			case "del":
 				sops = append(sops, fmt.Sprintf("SDel %d", op.Doc))
 			case "uchans":
@@ -1412,11 +1461,13 @@ func c13Run(t *testing.T, ops []c13Op, emit bool) *c13Result {
 				sops = append(sops, fmt.Sprintf("SPull %d", op.Limit))
 			}
 		}
-		if adminOnly {
-			res.cases = append(res.cases, c13CoqCase{kind: "system", nt: res.nontri,
-				coq:  "(CSys " + cqList(sops) + " " + cqList(res.obs) + ")",
-				desc: map[string]any{"ops": ops, "pulls": res.pulls}})
+		kind := "system"
+		if docGrants {
+			kind = "system_doc_grants"
 		}
+		res.cases = append(res.cases, c13CoqCase{kind: kind, nt: res.nontri,
+			coq:  "(CSys " + cqList(sops) + " " + cqList(res.obs) + ")",
+			desc: map[string]any{"ops": ops, "pulls": res.pulls}})
 	}
 	return res
 }
@@ -1690,6 +1741,9 @@ func c13Corpus() map[string][]c13Op {
 		"user_chan_lost_doc_updated": {uch(1), P(1, 1), pull(0), P(1, 1), uch(), pull(0)},
 		"two_grants_paged":            {P(1, 1), P(2, 1), P(3, 2), P(4, 2), uch(1), pull(1), uch(1, 2), pull(1), pull(1), pull(1), pull(1), pull(0)},
 		"regrant_after_move":   {uch(1), P(1, 1), pull(0), uch(), P(1, 2), uch(1), pull(0)},
+		// channel A from two sources of the same principal (a granting document, then an explicit grant): when the document
+		// stops granting, the rebuild keeps A but re-stamps it with the later sequence; the period before is in no history
+		"restamped_grant_loses_period": {P(1, 1), {Kind: "put", Doc: 2, Chans: []int{2}, Acc: []c13Grant{{V: []int{1}}}}, pull(0), P(1, 2), uch(1), P(2, 2), uch(), pull(0)},
 	}
 }
 
